@@ -27,7 +27,7 @@ RULE = ("seeded generator over classes {generic, neg (negative coordinates), mix
         "multi (bit-identical shared points with different multiplicities), intdtype (int32/int64 arrays, compared with float64), "
         "narrow (diagrams held as uint8/int8/uint16/int16/uint32/int32/float16/float32 arrays whose values sit in one region of the dtype's "
         "range: high = all coordinates above 0.55 max, so that b + d does not fit the dtype; low = below 0.55 min (signed) or the bottom fifth; "
-        "small; full; shift and factor keep every coordinate inside the dtype; compared with the spec on the points and with the float64 copy), "
+        "small; full; (dtype, region) dealt from a shuffled deck of 24 combinations, 18 per quick run; shift and factor keep every coordinate inside the dtype; compared with the spec on the points and with the float64 copy), "
         "tiny (whole diagrams x 1e-8..1e-30: every persistence below any absolute threshold), farshort (|coordinates| T = 1e3..1e6 of "
         "either sign, persistence 7e-6..1e-2 of T, mostly 1-3 points against 0-2; either living at T and shifted back to the origin or "
         "living at the origin and shifted to T), layout (Fortran-ordered arrays, strided views into a larger array, read-only arrays), "
@@ -37,7 +37,8 @@ RULE = ("seeded generator over classes {generic, neg (negative coordinates), mix
         "besides sw(F,G), the values sw(F,H), sw(H,G) and sw(F,G) asked once more after all other calls are compared with the averaged 1-D "
         "transport cost. One case in four passes M as a numpy integer scalar (int64/int32). Call histories (harness/history.py; 14 in quick, 210 in thorough): all steps in one process on shared "
         "ndarray objects (equal-valued diagrams are the same object, within a step and across steps), every step judged by the same spec "
-        "predicate: pairwise (d(A,B), d(B,C), d(A,C), d(C,empty), d(C,B) for diagrams at different places along the diagonal), msweep (one pair "
+        "predicate: pairwise (d(A,B), d(B,C), d(A,C), d(C,empty), d(C,B) for diagrams at different places along the diagonal, in half of them also d(B,B) with "
+        "one object as both arguments), msweep (one pair "
         "under several M and back), fault (rejected or interrupted calls between clean calls on the same objects: a 3-column second argument, which "
         "raises after the first has been projected; M = 0; M given as a float equal to the integer, as numpy float64/float32, as a string, None, M + 0.5, -M; "
         "a list of lists; a call under warnings-as-errors; an object array whose last entry raises after k uses, i.e. in the middle of the loop over the "
@@ -131,15 +132,20 @@ NARROW = {"uint8": (0, 255, 1), "int8": (-128, 127, 1), "uint16": (0, 65535, 1),
           "float16": (-65504, 65504, 32), "float32": (-2 ** 24, 2 ** 24, 1)}
 
 
-def _narrow(rng):
+_INTS = ["uint8", "int8", "uint16", "int16", "uint32", "int32"]
+NARROW_DECK = ([(dt, r) for dt in _INTS for r in ("high", "full", "low")] +
+               [("float16", "high"), ("float16", "full"), ("float16", "small"), ("float32", "full"), ("uint8", "small"), ("int16", "small")])
+
+
+def _narrow(rng, combo=None):
     """Diagrams stored in a narrow dtype (8/16/32-bit integers, signed or not, float16, float32) whose values sit in a
     chosen REGION of the dtype's range: high (all coordinates > 0.55 max: b + d, and 2 b, do not fit the dtype), low
     (signed: < 0.55 min; unsigned: the bottom fifth), small (around zero), full (anywhere).  The value is a function of
     the points, so it must be that of the same points held as float64.  Shift and factor keep every translated / scaled
-    coordinate inside the dtype (high / low / full: even multiples of the grid and factor 1/2)."""
-    dtype = rng.choice(sorted(NARROW))
+    coordinate inside the dtype (high / low / full: even multiples of the grid and factor 1/2).  generate() deals the
+    (dtype, region) combinations from a shuffled deck (NARROW_DECK, 24 cards, 18 narrow cases in quick)."""
+    dtype, region = combo or rng.choice(NARROW_DECK)
     lo, hi, g = NARROW[dtype]
-    region = rng.choice(["high", "high", "low", "small", "full"])
     if region == "high":
         a, z = int(0.55 * hi), hi
     elif region == "low":
@@ -169,7 +175,7 @@ def _narrow(rng):
     return dtype, F, G, H, xs, shift, factor
 
 
-def _case(rng, cls, Ms):
+def _case(rng, cls, Ms, combo=None):
     kind = cls if cls in ("neg", "mixed", "dyadic") else rng.choice(["pos", "pos", "mixed", "neg"])
     sc = rng.choice([2.0 ** -10, 2.0 ** -3, 2.0 ** 7, 2.0 ** 20, 1e3]) if cls == "scale" else 1.0
     if cls == "tiny":       # whole diagrams at a tiny scale: every persistence far below 1e-8 (absolute thresholds)
@@ -251,7 +257,7 @@ def _case(rng, cls, Ms):
         shift = float(rng.choice([10, -10, -3, -1000, 7]))
         factor = float(rng.choice([2, 3, 1024]))
     elif cls == "narrow":
-        dtype, F, G, H, xs, shift, factor = _narrow(rng)
+        dtype, F, G, H, xs, shift, factor = _narrow(rng, combo)
     perm = list(range(len(F)))
     rng.shuffle(perm)
     return {"cls": cls, "F": F, "G": G, "H": H, "M": rng.choice(Ms), "perm": perm, "shift": shift, "factor": factor,
@@ -267,9 +273,17 @@ LAYOUTS = ["F", "view", "ro"]      # Fortran order / strided view into a larger 
 
 
 def generate(rng, tier):
-    n_cases = 178 if tier == "quick" else 2670
+    n_cases = 180 if tier == "quick" else 2670
     Ms = _Ms(tier)
-    cases = [_case(rng, CLASSES[i % len(CLASSES)], Ms) for i in range(n_cases)]
+    deck, cases = [], []
+    for i in range(n_cases):
+        cls, combo = CLASSES[i % len(CLASSES)], None
+        if cls == "narrow":
+            if not deck:
+                deck = NARROW_DECK[:]
+                rng.shuffle(deck)
+            combo = deck.pop()
+        cases.append(_case(rng, cls, Ms, combo))
     for i, M in enumerate(Ms):          # every M of the run on a case with a non-zero first slice
         c = _case(rng, ["generic", "mixed", "repaired"][i % 3], [M])
         cases.append(c)
@@ -285,7 +299,7 @@ FAULTS = ["G3", "M0", "Mstr", "Mnone", "Mfrac", "Mneg", "list", "werr", "bomb", 
 def _histories(rng, n, Ms, tier="quick"):
     """Call histories in one process; equal-valued diagrams of different calls (and of the calls inside one step)
     are THE SAME ndarray objects.  pairwise: the loop d(A,B), d(B,C), d(A,C), d(C,empty), d(C,B) over diagrams that sit
-    at different places along the diagonal; msweep: one pair under several M and back; fault: rejected / interrupted
+    at different places along the diagonal (+ d(B,B): one object as both arguments); msweep: one pair under several M and back; fault: rejected / interrupted
     calls between clean calls on the same objects (kinds, see _fault_call: a 3-column second argument - the first has
     been projected already; M = 0; M a float equal to the integer, a numpy float, a string, None, M + 0.5, -M; a list
     of lists; a call under warnings-as-errors; `bomb`, an object array whose last entry raises after a few uses, i.e.
@@ -333,6 +347,8 @@ def _histories(rng, n, Ms, tier="quick"):
             steps = [step(A, B, C), step(B, C, A), step(A, C, B), step(C, [], B), step(C, B, A)]
             if rng.random() < 0.5:
                 steps = steps[:3]
+            if rng.random() < 0.5:      # the diagonal of the pairwise loop: ONE object as both arguments
+                steps.insert(rng.randint(1, len(steps)), step(B, B, A))
         elif kind == "msweep":
             M2, M3 = rng.choice(Ms), rng.choice(Ms)
             steps = [step(A, B, C), step(A, B, C, M2), step(B, A, [], M3), step(A, B, C)]
